@@ -22,6 +22,7 @@ struct TextArg {
     bool corrupted = false;
     ST::utf_validation_t mode = ST::check_validity;
     bool explicit_mode = false;
+    bool nonconst_lvalue = false; // SK_STR_COPY: hand the source over as ST::string& rather than const ST::string& (a copy all the same)
     size_t in_bytes = 0;
     char cls = 'e';               // storage class letter of the input (in its own units)
     const char *kind_name() const;
@@ -59,7 +60,7 @@ template <class F> void with_arg(TextArg &A, F &&f) {
     case SK_WSV: if (m) f(std::wstring_view(A.nw), A.mode); else f(std::wstring_view(A.nw)); break;
     case SK_16SV: if (m) f(std::u16string_view(A.n16), A.mode); else f(std::u16string_view(A.n16)); break;
     case SK_32SV: if (m) f(std::u32string_view(A.n32), A.mode); else f(std::u32string_view(A.n32)); break;
-    case SK_STR_COPY: f(static_cast<const ST::string &>(*A.s->p())); break;
+    case SK_STR_COPY: if (A.nonconst_lvalue) f(static_cast<ST::string &>(*A.s->p())); else f(static_cast<const ST::string &>(*A.s->p())); break;
     case SK_STR_MOVE: f(std::move(*A.s->p())); break;
     default: f(static_cast<const char *>(nullptr)); break;
     }
